@@ -35,6 +35,8 @@ Variable lim : Z.
 Variable se : senv.
 Variable rho : var -> Z.
 Variable run_sub : env -> world -> Z -> result.
+(* code is a sequence of bytes *)
+Definition code_ok : Prop := Forall (fun b => 0 <= b < 256) (se_code se).
 
 Definition inst_env : env :=
   mkEnv (se_this se) (se_code se) (eval rho (se_caller se)) (eval rho (se_origin se))
@@ -161,10 +163,31 @@ Proof. intros sg s o n off k HR. apply (mread_agree sg s); [exact HR | apply mex
 Lemma decode_jumpdest : decode_op 91 = IJumpdest.
 Proof. reflexivity. Qed.
 
-Lemma sim_step_i : forall i sg s, R sg s ->
+Lemma zread_bytes : forall l off n,
+  Forall (fun b => 0 <= b < 256) l -> Forall (fun b => 0 <= b < 256) (zread l off n).
+Proof.
+  intros l off n H. unfold zread. apply Forall_forall. intros x Hx.
+  apply In_nth with (d := 0) in Hx. destruct Hx as [j [Hj <-]].
+  rewrite firstn_length, app_length, repeat_length in Hj.
+  rewrite nth_firstn_lt by lia. rewrite nth_app_default, nth_skipn.
+  destruct (Nat.lt_ge_cases (off + j) (length l)) as [Hl|Hl].
+  - rewrite Forall_forall in H. apply H. apply nth_In. exact Hl.
+  - rewrite nth_overflow by exact Hl. lia.
+Qed.
+
+Lemma const_bytes_map : forall l,
+  Forall (fun b => 0 <= b < 256) l ->
+  map (beval rho) (map (fun b => (31%nat, TConst (b mod 256))) l) = l.
+Proof.
+  induction l as [|b l IH]; intros H; [reflexivity|]. inversion H as [|? ? Hb Hl]; subst.
+  cbn [map]. rewrite IH by exact Hl. f_equal. unfold beval. cbn [fst snd eval].
+  rewrite be_bytes_last. rewrite Z.mod_mod by lia. apply Z.mod_small. exact Hb.
+Qed.
+
+Lemma sim_step_i : code_ok -> forall i sg s, R sg s ->
   sim_result sg (sstep_i lim se i sg) s (step_i lim run_sub i inst_env s).
 Proof.
-  intros i sg s HR. pose proof HR as [Hpc Hst Hlen Hmem Hsto Htsto Hbal Hret].
+  intros Hcode i sg s HR. pose proof HR as [Hpc Hst Hlen Hmem Hsto Htsto Hbal Hret].
   destruct i; cbn [sstep_i step_i]; cbv zeta; unfold binop, unop, ternop, push; try exact I.
   - (* IStop *)
     eexists; split; [reflexivity|]. cbn [leaf_matches map]. eexists _, _. split; [reflexivity|]. auto.
@@ -197,6 +220,80 @@ Proof.
     rewrite Hst. destruct (ss_stack sg) as [|x r]; cbn [map]; try halt_leaf.
     destruct x; try exact I. destruct (z <? 0); [exact I|].
     apply sim_snext; [exact HR|]. cbn [map]. rewrite eval_TWord, smread_map. reflexivity.
+  - (* ICalldatacopy *)
+    rewrite Hst. destruct (ss_stack sg) as [|x [|y [|w r]]]; cbn [map]; try halt_leaf.
+    + destruct x; try exact I; halt_leaf.
+    + destruct x; try exact I; destruct y; try exact I; halt_leaf.
+    + destruct x; try exact I. destruct y; try exact I. destruct w; try exact I. cbn [eval].
+      destruct ((z <? 0) || (z0 <? 0) || (z1 <? 0)) eqn:Eneg; [exact I|].
+      unfold copy_to_mem, s_oog_range, oog_range. destruct (negb (z1 =? 0) && (lim <? z + z1)); [halt_leaf|].
+      destruct (z1 =? 0) eqn:En.
+      * apply Z.eqb_eq in En. subst z1. cbn [Z.to_nat Nat.eqb].
+        apply (sim_result_ctr _ _ _ (with_mem s (mexpand (s_mem s) (Z.to_nat z) 0))); [reflexivity|].
+        apply sim_snext; [apply R_with_mem_expand; exact HR | reflexivity].
+      * assert (Hn : (Z.to_nat z1 =? 0)%nat = false).
+        { apply Nat.eqb_neq. apply Z.eqb_neq in En.
+          apply orb_false_iff in Eneg. destruct Eneg as [_ E3]. apply Z.ltb_ge in E3. lia. }
+        rewrite Hn.
+        match goal with |- sim_result _ (snext (set_mem _ (smwrite _ _ ?src)) _) _ (next (with_mem _ (mwrite ?m1 _ ?bs)) _) =>
+          set (SRC := src); set (BS := bs); set (M2 := mwrite m1 (Z.to_nat z) BS) end.
+        assert (Hsrc : map (beval rho) SRC = BS) by (subst SRC BS; rewrite smread_map; reflexivity).
+        assert (HlenB : length BS = Z.to_nat z1) by (subst BS; unfold zread; rewrite firstn_length, app_length, repeat_length; lia).
+        clearbody SRC BS.
+        apply (sim_result_ctr _ _ _ (with_mem s M2)); [reflexivity|].
+        apply sim_snext; [|reflexivity].
+        destruct HR as [h1 h2 h3 h4 h5 h6 h7 h8].
+        constructor; cbn [s_pc s_stack s_mem s_world s_ret s_ctr with_mem ss_pc ss_stack ss_mem ss_store ss_tstore set_mem]; try assumption.
+        intros i. subst M2.
+        rewrite mwrite_nth by (rewrite HlenB; apply mexpand_length; apply Nat.eqb_neq; exact Hn).
+        rewrite smwrite_nth, Hsrc, mexpand_nth.
+        assert (Hl2 : @length bterm SRC = length BS) by (rewrite <- Hsrc, map_length; reflexivity).
+        rewrite Hl2.
+        destruct ((Z.to_nat z <=? i) && (i <? Z.to_nat z + length BS))%nat; auto.
+  - (* ICodecopy *)
+    rewrite Hst. destruct (ss_stack sg) as [|x [|y [|w r]]]; cbn [map]; try halt_leaf.
+    + destruct x; try exact I; halt_leaf.
+    + destruct x; try exact I; destruct y; try exact I; halt_leaf.
+    + destruct x; try exact I. destruct y; try exact I. destruct w; try exact I. cbn [eval].
+      destruct ((z <? 0) || (z0 <? 0) || (z1 <? 0)) eqn:Eneg; [exact I|].
+      unfold copy_to_mem, s_oog_range, oog_range. destruct (negb (z1 =? 0) && (lim <? z + z1)); [halt_leaf|].
+      destruct (z1 =? 0) eqn:En.
+      * apply Z.eqb_eq in En. subst z1. cbn [Z.to_nat Nat.eqb].
+        apply (sim_result_ctr _ _ _ (with_mem s (mexpand (s_mem s) (Z.to_nat z) 0))); [reflexivity|].
+        apply sim_snext; [apply R_with_mem_expand; exact HR | reflexivity].
+      * assert (Hn : (Z.to_nat z1 =? 0)%nat = false).
+        { apply Nat.eqb_neq. apply Z.eqb_neq in En.
+          apply orb_false_iff in Eneg. destruct Eneg as [_ E3]. apply Z.ltb_ge in E3. lia. }
+        rewrite Hn.
+        match goal with |- sim_result _ (snext (set_mem _ (smwrite _ _ ?src)) _) _ (next (with_mem _ (mwrite ?m1 _ ?bs)) _) =>
+          set (SRC := src); set (BS := bs); set (M2 := mwrite m1 (Z.to_nat z) BS) end.
+        assert (Hsrc : map (beval rho) SRC = BS) by (subst SRC BS; apply const_bytes_map; apply zread_bytes; exact Hcode).
+        assert (HlenB : length BS = Z.to_nat z1) by (subst BS; unfold zread; rewrite firstn_length, app_length, repeat_length; lia).
+        clearbody SRC BS.
+        apply (sim_result_ctr _ _ _ (with_mem s M2)); [reflexivity|].
+        apply sim_snext; [|reflexivity].
+        destruct HR as [h1 h2 h3 h4 h5 h6 h7 h8].
+        constructor; cbn [s_pc s_stack s_mem s_world s_ret s_ctr with_mem ss_pc ss_stack ss_mem ss_store ss_tstore set_mem]; try assumption.
+        intros i. subst M2.
+        rewrite mwrite_nth by (rewrite HlenB; apply mexpand_length; apply Nat.eqb_neq; exact Hn).
+        rewrite smwrite_nth, Hsrc, mexpand_nth.
+        assert (Hl2 : @length bterm SRC = length BS) by (rewrite <- Hsrc, map_length; reflexivity).
+        rewrite Hl2.
+        destruct ((Z.to_nat z <=? i) && (i <? Z.to_nat z + length BS))%nat; auto.
+  - (* IReturndatacopy *)
+    rewrite Hst. destruct (ss_stack sg) as [|x [|y [|w r]]]; cbn [map]; try halt_leaf.
+    + destruct x; try exact I; halt_leaf.
+    + destruct x; try exact I; destruct y; try exact I; halt_leaf.
+    + destruct x; try exact I. destruct y; try exact I. destruct w; try exact I. cbn [eval].
+      destruct ((z <? 0) || (z0 <? 0) || (z1 <? 0)) eqn:Eneg; [exact I|].
+      rewrite Hret. cbn [length Z.of_nat].
+      destruct (0 <? z0 + z1) eqn:E; [halt_leaf|].
+      assert (z1 = 0).
+      { apply orb_false_iff in Eneg. destruct Eneg as [Eneg E3]. apply orb_false_iff in Eneg. destruct Eneg as [E1 E2].
+        apply Z.ltb_ge in E, E1, E2, E3. lia. }
+      subst z1. unfold copy_to_mem, oog_range. cbn [Z.eqb negb andb Z.to_nat Nat.eqb].
+      apply (sim_result_ctr _ _ _ (with_mem s (mexpand (s_mem s) (Z.to_nat z) 0))); [reflexivity|].
+      apply sim_snext; [apply R_with_mem_expand; exact HR | reflexivity].
   - (* IPop *)
     rewrite Hst. destruct (ss_stack sg) as [|x r]; cbn [map]; try halt_leaf.
     apply sim_snext; [exact HR | reflexivity].
@@ -290,6 +387,50 @@ Proof.
     destruct (1024 <? length r)%nat eqn:E; [halt_leaf|].
     eexists; split; [reflexivity|]. apply Nat.ltb_ge in E.
     constructor; cbn; auto. apply store_agree_cons. exact Htsto.
+  - (* IMcopy *)
+    rewrite Hst. destruct (ss_stack sg) as [|x [|y [|w r]]]; cbn [map]; try halt_leaf.
+    + destruct x; try exact I; halt_leaf.
+    + destruct x; try exact I; destruct y; try exact I; halt_leaf.
+    + destruct x; try exact I. destruct y; try exact I. destruct w; try exact I. cbn [eval].
+      destruct ((z <? 0) || (z0 <? 0) || (z1 <? 0)) eqn:Eneg; [exact I|].
+      unfold s_oog_range, oog_range. destruct (negb (z1 =? 0) && (lim <? z0 + z1)); [halt_leaf|].
+      unfold copy_to_mem, oog_range. cbn [s_mem with_mem s_ctr].
+      destruct (negb (z1 =? 0) && (lim <? z + z1)); [halt_leaf|].
+      destruct (z1 =? 0) eqn:En.
+      * apply Z.eqb_eq in En. subst z1. cbn [Z.to_nat Nat.eqb].
+        set (M1 := mexpand (mexpand (s_mem s) (Z.to_nat z0) 0) (Z.to_nat z) 0).
+        apply (sim_result_ctr _ _ _ (with_mem s M1)); [reflexivity|].
+        apply sim_snext; [|reflexivity].
+        destruct HR as [h1 h2 h3 h4 h5 h6 h7 h8].
+        constructor; cbn [s_pc s_stack s_mem s_world s_ret s_ctr with_mem]; try assumption;
+          try (intros i; subst M1; rewrite !mexpand_nth; apply h4).
+      * assert (Hn : (Z.to_nat z1 =? 0)%nat = false).
+        { apply Nat.eqb_neq. apply Z.eqb_neq in En.
+          apply orb_false_iff in Eneg. destruct Eneg as [_ E3]. apply Z.ltb_ge in E3. lia. }
+        rewrite Hn.
+        set (M0 := mexpand (s_mem s) (Z.to_nat z0) (Z.to_nat z1)).
+        set (BS := zread (mread M0 (Z.to_nat z0) (Z.to_nat z1)) (Z.to_nat 0) (Z.to_nat z1)).
+        set (M2 := mwrite (mexpand M0 (Z.to_nat z) (Z.to_nat z1)) (Z.to_nat z) BS).
+        set (SRC := smread (ss_mem sg) (Z.to_nat z0) (Z.to_nat z1)).
+        assert (Hsrc : map (beval rho) SRC = BS).
+        { subst SRC BS M0. rewrite <- (mread_expand_agree sg s (Z.to_nat z0) (Z.to_nat z1) _ _ HR).
+          set (L := mread _ _ _). apply (list_eq_nth 0).
+          - unfold zread. rewrite firstn_length, app_length, repeat_length. subst L. rewrite mread_length. lia.
+          - intros i Hi. assert (Hi' : (i < Z.to_nat z1)%nat) by (subst L; rewrite mread_length in Hi; exact Hi).
+            change (zread L (Z.to_nat 0) (Z.to_nat z1)) with (mread L 0 (Z.to_nat z1)).
+            rewrite mread_nth by exact Hi'. reflexivity. }
+        assert (HlenB : length BS = Z.to_nat z1) by (subst BS; unfold zread; rewrite firstn_length, app_length, repeat_length; lia).
+        clearbody SRC BS.
+        apply (sim_result_ctr _ _ _ (with_mem s M2)); [reflexivity|].
+        apply sim_snext; [|reflexivity].
+        destruct HR as [h1 h2 h3 h4 h5 h6 h7 h8].
+        constructor; cbn [s_pc s_stack s_mem s_world s_ret s_ctr with_mem ss_pc ss_stack ss_mem ss_store ss_tstore set_mem]; try assumption.
+        intros i. subst M2.
+        rewrite mwrite_nth by (rewrite HlenB; apply mexpand_length; apply Nat.eqb_neq; exact Hn).
+        rewrite smwrite_nth, Hsrc, !mexpand_nth.
+        assert (Hl2 : @length bterm SRC = length BS) by (rewrite <- Hsrc, map_length; reflexivity).
+        rewrite Hl2. subst M0. rewrite mexpand_nth.
+        destruct ((Z.to_nat z <=? i) && (i <? Z.to_nat z + length BS))%nat; auto.
   - (* IPush0 *)
     apply sim_snext; [exact HR|]. unfold push. rewrite Hst. reflexivity.
   - (* IPush *)
@@ -305,6 +446,21 @@ Proof.
     rewrite <- (map_cons (eval rho) a r), nth_error_map.
     destruct (nth_error (a :: r) n) as [b|]; cbn [option_map]; [|halt_leaf].
     apply sim_snext; [exact HR|]. cbn [map]. rewrite map_app, <- firstn_map. cbn [map]. rewrite <- skipn_map. reflexivity.
+  - (* ILog *)
+    unfold do_log. rewrite Hst. destruct (ss_stack sg) as [|x [|y r]] eqn:Est; cbn [map]; try halt_leaf.
+    + destruct x; try exact I; halt_leaf.
+    + destruct x; try exact I. destruct y; try exact I. cbn [eval e_static inst_env].
+      destruct (se_static se); [halt_leaf|]. rewrite map_length.
+      destruct (length r <? n)%nat; [halt_leaf|].
+      destruct ((z <? 0) || (z0 <? 0)); [exact I|].
+      unfold s_oog_range, oog_range. destruct (negb (z0 =? 0) && (lim <? z + z0)); [halt_leaf|].
+      eexists; split; [reflexivity|].
+      destruct HR as [h1 h2 h3 h4 h5 h6 h7 h8].
+      constructor; cbn [s_pc s_stack s_mem s_world s_ret s_ctr ss_pc ss_stack ss_mem ss_store ss_tstore set_stack]; try assumption.
+      * rewrite h1. reflexivity.
+      * rewrite <- skipn_map. reflexivity.
+      * rewrite skipn_length. rewrite Est in h3. cbn in h3. lia.
+      * intros i. rewrite mexpand_nth. apply h4.
   - (* IReturn *)
     rewrite Hst. destruct (ss_stack sg) as [|x [|y r]]; cbn [map]; try halt_leaf.
     + destruct x; try exact I; halt_leaf.
@@ -325,12 +481,12 @@ Proof.
     halt_leaf.
 Qed.
 
-Lemma sim_step : forall sg s, R sg s ->
+Lemma sim_step : code_ok -> forall sg s, R sg s ->
   sim_result sg (sstep lim se sg) s (step lim run_sub inst_env s).
 Proof.
-  intros sg s HR. unfold sstep, step. cbn [e_code inst_env]. rewrite (R_pc _ _ HR).
+  intros Hcode sg s HR. unfold sstep, step. cbn [e_code inst_env]. rewrite (R_pc _ _ HR).
   destruct (nth_error (se_code se) (ss_pc sg)) as [op|].
-  - apply sim_step_i. exact HR.
+  - apply sim_step_i; [exact Hcode | exact HR].
   - cbn [sim_result]. eexists; split; [reflexivity|]. cbn [leaf_matches map].
     destruct HR. eexists _, _. split; [reflexivity|]. auto.
 Qed.
@@ -359,6 +515,7 @@ Variable se : senv.
 Variable rho : var -> Z.
 Variable oracle : list cond -> term -> bool -> Z.
 Variable loop : Z.
+Hypothesis Hcode : code_ok se.
 
 Notation inst_env := (inst_env se rho).
 Notation R := (R se rho).
@@ -456,7 +613,7 @@ Proof.
   induction fuel as [|f IH]; intros sg s HR l Hin Hsat; cbn [sexec] in Hin.
   - destruct Hin as [<-|[]]. exists O. exact I.
   - set (rs0 := fun (_ : env) (_ : world) (_ : Z) => RFuel).
-    pose proof (sim_step lim se rho rs0 sg s HR) as Hsim.
+    pose proof (sim_step lim se rho rs0 Hcode sg s HR) as Hsim.
     destruct (sstep lim se sg) as [sg'|k|c t rest] eqn:Es; cbn [sim_result] in Hsim.
     + destruct Hsim as [s' [Hstep HR']].
       destruct (IH sg' s' HR' l Hin Hsat) as [n Hn].
